@@ -85,9 +85,16 @@ func Complete(code CodeBuffer, ev *eval.Evaler, cfg Config) (*Result, error) {
 		sort.Slice(rawItems, func(i, j int) bool {
 			return rawItems[i].String() < rawItems[j].String()
 		})
+		quote := ctx.quote
+		if quote != parse.SingleQuoted && quote != parse.DoubleQuoted {
+			// The seed does not end in a quoted string. It may end in a tilde
+			// or a variable, which are not quoting styles; quote the
+			// candidates like after a bareword.
+			quote = parse.Bareword
+		}
 		items := make([]modes.CompletionItem, len(rawItems))
 		for i, rawCand := range rawItems {
-			items[i] = rawCand.Cook(ctx.quote)
+			items[i] = rawCand.Cook(quote)
 		}
 		items = dedup(items)
 		return &Result{Name: ctx.name, Items: items, Replace: ctx.interval}, nil
